@@ -152,7 +152,7 @@ func (i *input) lex() {
 		case '"', '\'', '`': // String
 			// Ignore strings because they could contain comment
 			// start or end sequences which we need to ignore.
-			if i.lang == language.HTML {
+			if i.lang == language.HTML || i.lang == language.Markdown {
 				// Quotes in HTML-like files aren't meaningful,
 				// because it's basically plain text
 				break
